@@ -299,9 +299,16 @@ Section Exec.
   Definition execute_queue (n : nat) (q : list qitem) (state : vec T) : vec T :=
     fold_left (fun s it => apply_item n it s) q state.
 
-  (* Circuit.unitary:  `elif not isinstance(gate, (gates.SpecialGate, gates.M)): fgate.append(gate)`;
-     FusedGate is a SpecialGate, so it is skipped *)
+  (* Circuit.unitary (after repair 93eb16277):
+       `elif isinstance(gate, gates.FusedGate) or not isinstance(gate, (gates.SpecialGate, gates.M)):
+            fgate.append(gate)`
+     and FusedGate.append of a FusedGate extends the member list with that gate's members *)
   Definition unitary_queue (n : nat) (q : list qitem) : mat T :=
+    matrix_fused (seq 0 n)
+      (flat_map (fun it => match it with QGate g => [g] | QFused _ gs => gs end) q).
+
+  (* historical: before the repair every SpecialGate, FusedGate included, was skipped *)
+  Definition unitary_queue_skipping (n : nat) (q : list qitem) : mat T :=
     matrix_fused (seq 0 n)
       (flat_map (fun it => match it with QGate g => [g] | QFused _ _ => [] end) q).
 End Exec.
